@@ -12,7 +12,7 @@ fn main() {
     if std::env::var_os("VERIF_LOUD").is_none() {
         explorer::quiet_panics();
     }
-    let code = match args.property.as_str() {
+    let code = explorer::guard_main(&args.property, || match args.property.as_str() {
         "C11" => c11::run(Report::new(&args, "model_checking")),
         "C12" => c12::run(Report::new(&args, "fault_enumeration")),
         "C13" => c13::run(Report::new(&args, "model_checking")),
@@ -20,6 +20,6 @@ fn main() {
             eprintln!("vh-stream: unknown property {other}");
             2
         }
-    };
+    });
     std::process::exit(code);
 }
